@@ -45,7 +45,7 @@ theorem readVariantAsA_bo : ∀ (vs : TVariants), (∀ x ∈ TVariants.toList vs
     ∀ (sel : Option Nat) (name : String) (p : String) (a : Arr) (fmname : String) (child : Arr) (off : Nat) (w : LVal),
     decodeAt child off = .ok w → new Fixes.all child = .ok () → physical child = true → utf8Ok w = true →
     noKnownVariant vs sel name child w = true →
-    Bo (positionsAt p (blameVariant vs sel name (here a) (Build.childName fmname) child w)) (p, Read.label a)
+    Bo (positionsAt p (blameVariant vs sel name (here a) (segName fmname) child w)) (p, Read.label a)
       (readVariantAsA AnnFixes.all Fixes.all vs sel name (some (rchild p fmname, child, off)))
   | .nil, _, sel, name, p, a, fmname, child, off, w, _, _, _, _, _ => by
     simp only [readVariantAsA, blameVariant]
@@ -55,8 +55,8 @@ theorem readVariantAsA_bo : ∀ (vs : TVariants), (∀ x ∈ TVariants.toList vs
     simp only [readVariantAsA, blameVariant]
     have key : ∀ (c : Bool),
         (if c = true then noKnownKind k child w else noKnownVariant rest (sel.map (· - 1)) name child w) = true →
-        Bo (positionsAt p (if c = true then below [Build.childName fmname] (blameKind k child w)
-            else blameVariant rest (sel.map (· - 1)) name (here a) (Build.childName fmname) child w)) (p, Read.label a)
+        Bo (positionsAt p (if c = true then below [segName fmname] (blameKind k child w)
+            else blameVariant rest (sel.map (· - 1)) name (here a) (segName fmname) child w)) (p, Read.label a)
           (if c = true then (do pure (DVal.enum (.str .transient (strBytes n))
               (← readKindA AnnFixes.all Fixes.all k (some (rchild p fmname, child, off)))))
             else readVariantAsA AnnFixes.all Fixes.all rest (sel.map (· - 1)) name (some (rchild p fmname, child, off))) := by
